@@ -346,7 +346,7 @@ def shard(ctx, arg):
             parts = [classes]
         models = [R.to_model(p) for p in parts]
         big = None
-        if rng.random() < (1 / 30 if ctx.quick else 1 / 60):
+        if rng.random() < (1 / 30 if ctx.quick else 1 / 160):
             # big-index pool: a padding class whose N static fields and N native methods sort BEFORE the program's classes pushes the program's field,
             # method and string indices across 0x7FFF/0x8000 (sign bit of a 16-bit index) or close to 0xFFFF
             big = rng.choice([0x7FF8, 0x7FFD, 0x7FFF, 0x8000, 0x8005, 0xFE00])
@@ -397,7 +397,7 @@ def run(ctx, which):
                 "every xref table compared with the model. distinct non-trivial = distinct (#sites, #targets, external?, array?) per method/field/string/class")
     ctx.assumptions = ["const-class / new-instance on the method's own class and const-class on [LFoo; (recorded by androguard on LFoo;) are don't-care",
                        "vf/model/dexw.py + vf/gen/refprog.py site offsets"]
-    n = 480 if ctx.quick else 200000
+    n = 480 if ctx.quick else 64000
     ctx.run_shards(MOD, "shard", [[which, i, n // 16 + 1] for i in range(16)], timeout=3000)
     ctx.require_counter("analyses", 100)
     ctx.min_distinct = 8
